@@ -110,7 +110,7 @@ func genC08(t *rapid.T) C08Case {
 		}
 		no := rapid.IntRange(1, 5).Draw(t, "nops")
 		for j := 0; j < no; j++ {
-			op := C08Op{K: rapid.SampledFrom([]string{"send", "send", "multisend", "eth-send", "eth-send", "highfee", "gov-deposit", "dao-fund", "delegate", "delegate", "eth-delegate", "exec-delegate", "create-validator", "eth-create-validator", "undelegate", "liquidate", "merge", "merge-stake", "clawback", "receive"}).Draw(t, "k")}
+			op := C08Op{K: rapid.SampledFrom([]string{"send", "send", "multisend", "eth-send", "eth-send", "highfee", "gov-deposit", "dao-fund", "delegate", "delegate", "eth-delegate", "exec-delegate", "create-validator", "eth-create-validator", "undelegate", "liquidate", "merge", "merge-stake", "clawback", "receive", "convert-back", "legacy-split"}).Draw(t, "k")}
 			op.Mode = rapid.SampledFrom([]string{"spendable", "spendable", "spendable", "delegatable", "abs"}).Draw(t, "mode")
 			op.Off = rapid.SampledFrom([]int64{0, 0, 1, -1, 2, -2, 1000000}).Draw(t, "off")
 			op.Abs = rapid.SampledFrom([]string{"1", "1000", "500000", "1000000", "9000000"}).Draw(t, "abs")
@@ -245,7 +245,7 @@ func runC08(st *ev.Stats, c C08Case) string {
 			gas := uint64(400000)
 			fee := new(big.Int).Mul(price, new(big.Int).SetUint64(gas))
 			// "spend exactly what is spendable": leave room for the fee in the boundary modes
-			if op.Mode == "spendable" && op.K != "eth-send" && op.K != "eth-delegate" && op.K != "eth-create-validator" && op.K != "receive" && op.K != "merge" && op.K != "merge-stake" && op.K != "clawback" {
+			if op.Mode == "spendable" && op.K != "eth-send" && op.K != "eth-delegate" && op.K != "eth-create-validator" && op.K != "receive" && op.K != "merge" && op.K != "merge-stake" && op.K != "clawback" && op.K != "convert-back" && op.K != "legacy-split" {
 				amt = new(big.Int).Sub(amt, fee)
 				if amt.Sign() <= 0 {
 					amt = big.NewInt(1)
@@ -374,6 +374,34 @@ func runC08(st *ev.Stats, c C08Case) string {
 				vs := vals()
 				isDelegation = true
 				code, log = cosmosAs(F, 1500000, price, vestingtypes.NewMsgConvertIntoVestingAccount(F.Addr, V.Addr, now.Add(-time.Second), toPeriods(lk), toPeriods(vest), true, true, vs[op.Val%len(vs)].GetOperator()))
+			case "convert-back":
+				// the account asks to become a plain account again: only possible once nothing is locked or unvested any more,
+				// whatever part of it is delegated
+				code, log = cosmosAs(V, 600000, price, vestingtypes.NewMsgConvertVestingAccount(V.Addr))
+				if code == 0 {
+					noDel := *va
+					noDel.DelegatedFree, noDel.DelegatedVesting = nil, nil
+					lockedNoDel, unv := c08Locked(&noDel, now)
+					if lockedNoDel.Sign() > 0 || unv.Sign() > 0 {
+						return fail("converted-while-locked", fmt.Sprintf("block %d op %d: the vesting account was turned into a plain account while %s of its coins were still locked (unvested %s; tracked delegations %s)", bi_+1, oi, lockedNoDel, unv, va.DelegatedFree))
+					}
+					st.Class("accepted:convert-back")
+				} else {
+					st.Class("refused:convert-back")
+				}
+				continue
+			case "legacy-split":
+				// a legacy account: part of its tracked delegation sits in the DelegatedVesting field (as accounts created
+				// before the tracking was unified, or imported through genesis, have it); the total stays the same
+				if va.DelegatedFree.IsZero() {
+					continue
+				}
+				half := sdk.NewCoins(sdk.NewCoin(chain.Denom, va.DelegatedFree.AmountOf(chain.Denom).QuoRaw(2).AddRaw(1)))
+				va.DelegatedFree = va.DelegatedFree.Sub(half...)
+				va.DelegatedVesting = va.DelegatedVesting.Add(half...)
+				app.AccountKeeper.SetAccount(n.Ctx(), va)
+				st.Class("legacy-delegated-vesting")
+				continue
 			case "clawback":
 				code, log = cosmosAs(F, 600000, price, vestingtypes.NewMsgClawback(F.Addr, V.Addr, U.Addr))
 			case "receive":
